@@ -61,7 +61,7 @@ func stateOf(m *c16model.Result) lineState {
 // ScriptReach is the per-script reach information (independent of the transport).
 type ScriptReach struct {
 	// per line: start offset, end offset (exclusive, including the terminator), state before, event, state after
-	Lines []lineInfo
+	Lines  []lineInfo
 	Probes map[string]int
 }
 
